@@ -608,8 +608,14 @@ def r15f(ck, prog):
         if not F.name.startswith("GCGchecksum"):
             continue
         n += 1
-        consts = {x.cv for x in F.body.find("IntegerLiteral") if x.cv is not None}
-        up = [c for c in F.body.calls("toupper")] + [x for x in F.body.walk() if x.mac and "toupper" in x.mac and x.k == "CallExpr"]
+        # the function and the static helpers of its file it calls (a per-character term moved into gcg_term())
+        fns = [F]
+        for c_ in F.body.calls():
+            H = prog.fn(prog.resolve(c_.callee, F.file), required=False) if c_.callee else None
+            if H is not None and H.body is not None and H.static and H.file == F.file and H not in fns:
+                fns.append(H)
+        consts = {x.cv for G in fns for x in G.body.find("IntegerLiteral") if x.cv is not None}
+        up = [c for G in fns for c in G.body.calls("toupper")] + [x for G in fns for x in G.body.walk() if x.mac and "toupper" in x.mac and x.k == "CallExpr"]
         folded = [c for c in up if any(r.d.get("dk") == "Parm" for a in c.args for r in a.find("DeclRefExpr"))]
         where = site(prog, F, "formula")
         ck.inst("R15f", where, "%s: constants %s, case folding of the row: %s" % (F.name, sorted(consts & {57, 1, 10000}), bool(folded)), prog.config)
